@@ -145,4 +145,4 @@ _r04_5.__name__ = 'r04_5'
 
 
 def run(ctx):
-    engine.run_rules(ctx, [ras.r08_1, r11_2, r11_3, _r04_5, dt.r06_5, r11_5, c13.r13_1, c13.r13_5, c12.r12_1, c12.r12_2, c12.r12_3, c20.r20_3, lambda c: c15.r15_3(c, c.body(c15.CS, 'R15.3'))])
+    engine.run_rules(ctx, [ras.r08_1, r11_2, r11_3, _r04_5, dt.r11_6, dt.r06_5, r11_5, c13.r13_1, c13.r13_5, c12.r12_1, c12.r12_2, c12.r12_3, c20.r20_3, lambda c: c15.r15_3(c, c.body(c15.CS, 'R15.3'))])
